@@ -17,6 +17,7 @@ NUM_CELLS, TXT_CELLS, ERR_CELLS, COND_CELLS = [0, 1, 2, 9], [7, 16, 20, 21, 22, 
 class Gen:
     def __init__(self, rng, depth):
         self.rng, self.depth = rng, depth
+        self.made = {}          # kind -> branching sub-expressions already used in this formula (repeated verbatim now and then)
 
     # each generator returns (excel_text, request_tokens)
     def lit_int(self):
@@ -52,7 +53,17 @@ class Gen:
         if kind == 'any':
             kind = rng.choice(['num', 'num', 'txt', 'cond'])
         branchy = rng.random() < 0.6
+        if branchy and self.made.get(kind) and rng.random() < 0.2:
+            return rng.choice(self.made[kind])       # the same IF / IFS / IFERROR text once more, after others
         if branchy:
+            out = self.branch(kind, d)
+            self.made.setdefault(kind, []).append(out)
+            return out
+        return self.plain(kind, d)
+
+    def branch(self, kind, d):
+        rng = self.rng
+        if True:
             which = rng.choice(['if3', 'if2', 'ifs', 'iferr'])
             if which == 'if3':
                 c, t, f = self.expr('cond', d - 1), self.expr(kind, d - 1), self.expr(kind, d - 1)
@@ -70,6 +81,9 @@ class Gen:
                 return 'IFS(%s)' % ','.join(parts), toks
             a, b = self.expr(rng.choice([kind, 'any']), d - 1), self.expr(kind, d - 1)
             return 'IFERROR(%s,%s)' % (a[0], b[0]), ['iferr'] + a[1] + b[1]
+
+    def plain(self, kind, d):
+        rng = self.rng
         if kind == 'num':
             op = rng.choice(['add', 'mul', 'div', 'sum'])
             a, b = self.expr('num', d - 1), self.expr('num', d - 1)
@@ -115,10 +129,14 @@ def run(tier, seed):
              ('IFS(A2,(1/0),A1,7)', ['ifs', '2', 'ref', '1', 'div', 'lit', 'I1', 'lit', 'I0', 'ref', '0', 'lit', 'I7']),
              ('IFERROR(A6,9)', ['iferr', 'ref', '5', 'lit', 'I9']),
              ('IF(A2,(1/0))', ['if2', 'ref', '1', 'div', 'lit', 'I1', 'lit', 'I0'])]
+    rep = ('IFS((A1=1),"big",TRUE,"small")', ['ifs', '2', 'eq', 'ref', '0', 'lit', 'I1', 'lit', core.enc('big'), 'lit', 'T', 'lit', core.enc('small')])
+    oth = ('IFS((A2=1),"big",TRUE,"small")', ['ifs', '2', 'eq', 'ref', '1', 'lit', 'I1', 'lit', core.enc('big'), 'lit', 'T', 'lit', core.enc('small')])
+    fixed.append(('((%s&%s)&%s)' % (rep[0], oth[0], rep[0]), ['cat', 'cat'] + rep[1] + oth[1] + rep[1]))      # the first IFS again after a different one
     for txt, toks in fixed:
         items.append((txt, toks))
         seen.add(txt)
     while len(items) < n:
+        g.made = {}
         txt, toks = g.expr('any', depth)
         if txt in seen or not any(k in txt for k in ('IF(', 'IFS(', 'IFERROR(')):
             continue
